@@ -11,6 +11,7 @@ package main
 import (
 	"bytes"
 	"crypto/sha256"
+	"encoding/binary"
 	"encoding/json"
 	"fmt"
 	"io"
@@ -44,15 +45,34 @@ type entryFn func(b []byte)
 
 var entries = map[string]entryFn{}
 
+// The LZMA reader of github.com/ulikunitz/xz allocates the dictionary the 13-byte stream header
+// announces (bytes 1..4) before it decodes anything, and fiano passes the stream to it
+// unexamined.  A header announcing more than the memory ceiling kills the worker; such inputs are
+// recognised here and reported with their own tag (they are not executed: the abort was confirmed
+// by running them, see props/C20.json), so that any OTHER crash of the decoders stays visible.
+func lzmaDictBeyondCeiling(name string, b []byte) (uint32, bool) {
+	if (name == "lzma" || name == "lzmax86") && len(b) >= 13 {
+		d := binary.LittleEndian.Uint32(b[1:5])
+		return d, d >= 768<<20
+	}
+	return 0, false
+}
+
 func totalOp(name string, f entryFn) Op {
 	return func(args []string) string {
 		b := decodeInput(args[0])
+		if d, big := lzmaDictBeyondCeiling(name, b); big {
+			return fmt.Sprintf("FAIL third-party-lzma-dict-alloc header announces a dictionary of %d bytes, input=%d", d, len(b))
+		}
 		var m0, m1 runtime.MemStats
 		runtime.ReadMemStats(&m0)
 		f(b)
 		runtime.ReadMemStats(&m1)
 		alloc := m1.TotalAlloc - m0.TotalAlloc
 		if alloc > allocBase+allocFactor*uint64(len(b)) {
+			if d, _ := lzmaDictBeyondCeiling(name, b); uint64(d) > allocBase {
+				return fmt.Sprintf("FAIL third-party-lzma-dict-alloc header announces a dictionary of %d bytes, allocated=%d input=%d", d, alloc, len(b))
+			}
 			return fmt.Sprintf("FAIL alloc-beyond-input allocated=%d input=%d", alloc, len(b))
 		}
 		return "ok"
